@@ -1027,7 +1027,10 @@ Definition end_unsol (cfg : ocfg) (s : ostate) (is_null : bool) (res : unsol_res
   else
     match res with
     | UrConfirmed => (upd_unsol s0 (UReady None), true, [ODb DbClearWritten])
-    | _ => (upd_unsol s0 (UReady (Some (s_now s0 + o_retry_delay_ms cfg)%Z)), false, [ODb DbReset])
+    | _ =>
+        (* SleepUnit(retry_at): with a retry delay of zero the deadline is not in the future, the sleep returns at
+           once and run_idle_state loops again in the same instant - the effect of NoSleep *)
+        (upd_unsol s0 (UReady (Some (s_now s0 + o_retry_delay_ms cfg)%Z)), (o_retry_delay_ms cfg <=? 0)%Z, [ODb DbReset])
     end.
 
 (* one fragment while waiting for an unsolicited confirm *)
